@@ -1,4 +1,5 @@
 import BPT.Rust.Raw
+import BPT.Rust.Checked
 import Driver.Util
 /- Rust-map part of the driver.  Keys are `ord#serial`, values are naturals. -/
 namespace Driver
@@ -154,11 +155,18 @@ def readerStep (cfg : Cfg) (m : RawMap RK RV) (ws : List String) : Option String
     some (s!"invariants={fmtRes fmtBool (m.checkInvariants cfg)} detailed={fmtRes fmtVErr (m.checkDetailed cfg)}")
   | _ => none
 
-/-- `try_insert` etc. validate before and after -/
-def validOk (cfg : Cfg) (s : RState RK RV) : Bool :=
-  match (view s).checkDetailed cfg with
-  | .ok none => true
-  | _ => false
+/-- checked wrappers: the model functions of BPT/Rust/Checked.lean, formatted -/
+def fmtErr : ApiErr → String
+  | .keyNotFound => "err KeyNotFound"
+  | .dataIntegrity => "err DataIntegrity"
+
+def fmtExcept {α : Type} (f : α → String) : Except ApiErr α → String
+  | .ok a => "ok " ++ f a
+  | .error e => fmtErr e
+
+def fmtChecked {α : Type} (f : α → String) : Option (RState RK RV × Except ApiErr α) → Option (RState RK RV) × String
+  | some (s', r) => (some s', fmtExcept f r)
+  | none => (none, "panic")
 
 def mutStep (cfg : Cfg) (s : RState RK RV) (ws : List String) : Option (Option (RState RK RV) × String) :=
   match ws with
@@ -175,22 +183,10 @@ def mutStep (cfg : Cfg) (s : RState RK RV) (ws : List String) : Option (Option (
     | _, _ => none
   | ["clear"] => some (some (clear s), "ok")
   | ["tryinsert", k, v] => match parseKey k, v.toNat? with
-    | some k, some v =>
-      if ¬ validOk cfg s then some (some s, "err DataIntegrity") else
-      some (match insert s k v with
-        | some (s', old) => if validOk cfg s' then (some s', "ok " ++ fmtOpt toString old) else (some s', "err DataIntegrity")
-        | none => (none, "panic"))
+    | some k, some v => some (fmtChecked (fmtOpt toString) (tryInsert cfg s k v))
     | _, _ => none
-  | ["tryremove", k] => (parseKey k).map fun k =>
-      if ¬ validOk cfg s then (some s, "err DataIntegrity") else
-      match remove s k with
-      | some (s', some old) => if validOk cfg s' then (some s', s!"ok {old}") else (some s', "err DataIntegrity")
-      | some (s', none) => (some s', "err KeyNotFound")
-      | none => (none, "panic")
-  | ["removeitem", k] => (parseKey k).map fun k => match remove s k with
-      | some (s', some old) => (some s', s!"ok {old}")
-      | some (s', none) => (some s', "err KeyNotFound")
-      | none => (none, "panic")
+  | ["tryremove", k] => (parseKey k).map fun k => fmtChecked toString (tryRemove cfg s k)
+  | ["removeitem", k] => (parseKey k).map fun k => fmtChecked toString (removeItem s k)
   | _ => none
 
 def rustStep (r : RSt) (ws : List String) : RSt × String :=
@@ -230,14 +226,7 @@ def rustStep (r : RSt) (ws : List String) : RSt × String :=
           | some a, some b => some (a, b)
           | _, _ => none
         | _ => none
-      let rec goB : List (RK × RV) → RState RK RV → List String → Option (RState RK RV) × String
-        | [], s, acc => (some s, "ok " ++ fmtList id acc.reverse)
-        | (k, v) :: rest, s, acc =>
-          if ¬ validOk r.cfg s then (some s, "err DataIntegrity") else
-          match insert s k v with
-          | some (s', old) => if validOk r.cfg s' then goB rest s' (fmtOpt toString old :: acc) else (some s', "err DataIntegrity")
-          | none => (none, "panic")
-      let res := goB items s0 []
+      let res := fmtChecked (fun (l : List (Option RV)) => fmtList id (l.map (fmtOpt toString))) (batchInsert r.cfg s0 items)
       (match res.1 with
        | some s' => ({ r with st := some s' }, res.2)
        | none => ({ r with dead := true }, res.2))
